@@ -18,4 +18,5 @@ void w_s_intersection(PS& x, const PS& y) { x.intersection_assign(y); }
 void w_s_upper_bound(PS& x, const PS& y) { x.upper_bound_assign(y); }
 void w_s_pairwise_reduce(PS& x) { x.pairwise_reduce(); }
 void w_s_topological_closure(PS& x) { x.topological_closure_assign(); }
+void w_s_assign(PS& x, const PS& y) { x = y; }
 }
